@@ -16,6 +16,7 @@ import (
 // constant propagation for every value of the counter (and of the number of alternatives).
 
 func newRegionInterp(p *core.Prog, na *nilAn) *dynInterp {
+	kindPredProg = p
 	return &dynInterp{p: p, na: na, memo: map[string]aval{}, open: map[string]bool{}, issues: map[string]*dynIssue{}, atoms: map[string]map[string]bool{}, checked: map[ssa.Instruction]bool{}, dataPos: map[*ssa.Function]map[int]bool{}, reached: map[*ssa.BasicBlock]bool{}, analysed: map[*ssa.Function]bool{}, arith: true, startAt: map[*ssa.Function]*ssa.BasicBlock{}, preset: map[ssa.Value]aval{}}
 }
 
